@@ -560,6 +560,18 @@ class Run:
             cov["evaluations"] = 0
         ev = {"property_id": self.pid, "tier": self.tier, "seed": self.seed, "level": self.level, "coverage": cov,
               "assumptions": self.assumptions, "wall_s": round(time.time() - self.t0, 2), "violations": len(self.violations)}
+        def clamp(x, n=600):
+            # evidence is a record of what was covered, not a transcript: long op lines (megabyte messages, long lists) are cut
+            if isinstance(x, str):
+                return x if len(x) <= n else x[:n] + f"…(+{len(x) - n} chars)"
+            if isinstance(x, list):
+                return [clamp(v, n) for v in x[:200]]
+            if isinstance(x, tuple):
+                return [clamp(v, n) for v in x[:200]]
+            if isinstance(x, dict):
+                return {k: clamp(v, 4000 if k in ("rule",) else n) for k, v in x.items()}
+            return x
+        ev = clamp(ev)
         with open(os.path.join(EVID, f"{self.pid}.json"), "w") as f:
             json.dump(ev, f, indent=1)
 
